@@ -596,6 +596,55 @@ theorem inv_setMany (st : St) (hinv : Inv st) (i : Nat) (kvs : List (String × C
         show srvValue st1 k' = some v
         rw [srvValue_eq_sval, henc1, m1]; exact o2
 
+/-! ### `scan`, `get_match`, `get_expire` -/
+
+theorem inv_scan (st : St) (hinv : Inv st) (i : Nat) (pat : String) : Inv (qstep st (.scan i pat)).1 := by
+  simp only [qstep, step]
+  exact inv_local_only st st i hinv rfl rfl (fun _ _ => rfl) ⟨(hinv.1 i).1, rfl, rfl, fun hs => ((hinv.1 i).2 hs).2⟩
+    (fun hs k e he => hinv.2 i k e hs he)
+
+theorem inv_getMatch (st : St) (hinv : Inv st) (i : Nat) (pat : String) : Inv (qstep st (.getMatch i pat)).1 :=
+  inv_getManyCore st hinv i _
+
+theorem lfind_ldel {c : Client} {now : Nat} {k k' : String} {e : LEntry} (h : (c.ldel k).lfind now k' = some e) :
+    c.lfind now k' = some e := by
+  by_cases hk : k' = k
+  · simp [Client.lfind, Client.ldel, hk] at h
+  · simpa [Client.lfind, Client.ldel, hk] using h
+
+theorem agreeEntry_val {st : St} {k : String} {e e' : LEntry} (hv : e'.val = e.val) (h : agreeEntry st k e) :
+    agreeEntry st k e' := by
+  unfold agreeEntry at h ⊢; rw [hv]; exact h
+
+/-- `get_expire` only re-times (or forgets) an entry of the caller's local copy -/
+theorem inv_getExpire (st : St) (hinv : Inv st) (i : Nat) (k : String) : Inv (qstep st (.getExpire i k)).1 := by
+  have hsame : Inv (deliverAll st) :=
+    inv_local_only st st i hinv rfl rfl (fun _ _ => rfl) ⟨(hinv.1 i).1, rfl, rfl, fun hs => ((hinv.1 i).2 hs).2⟩
+      (fun hs k e he => hinv.2 i k e hs he)
+  simp only [qstep, step]
+  split
+  · exact hsame
+  · split
+    · rename_i t _
+      refine inv_local_only st _ i hinv rfl rfl (fun j hj => by simp [upd, hj]) ?_ ?_
+      · simp only [upd, if_true]
+        split
+        · exact ⟨(hinv.1 i).1, rfl, rfl, fun hs => ((hinv.1 i).2 hs).2⟩
+        · split
+          · exact ⟨(hinv.1 i).1, rfl, rfl, fun hs => ((hinv.1 i).2 hs).2⟩
+          · exact ⟨(hinv.1 i).1, rfl, rfl, fun hs => ((hinv.1 i).2 hs).2⟩
+      · intro hs k' e' he
+        simp only [upd, if_true] at he
+        split at he
+        · exact hinv.2 i k' e' hs he
+        · rename_i e hf
+          split at he
+          · exact hinv.2 i k' e' hs (lfind_ldel he)
+          · rcases lfind_lset he with ⟨rfl, hval⟩ | ⟨_, hold⟩
+            · exact agreeEntry_val hval (hinv.2 i k' e hs hf)
+            · exact hinv.2 i k' e' hs hold
+    · exact hsame
+
 /-! ### every command of the model -/
 
 /-- side conditions on the ARGUMENTS of a command — no command of the model is excluded:
@@ -658,6 +707,11 @@ theorem inv2_qstep (st : St) (h : Inv2 st) (op : Op) (hc : WF st.isEnc op) : Inv
     simp only [qstep, deliverAll, step]
     exact domOK_exec _ _ rfl hdom
   | getMany i ks => exact ⟨inv_getMany st hinv i ks, hdom⟩
+  | getMatch i pat => exact ⟨inv_getMatch st hinv i pat, hdom⟩
+  | scan i pat => exact ⟨inv_scan st hinv i pat, hdom⟩
+  | getExpire i k =>
+    refine ⟨inv_getExpire st hinv i k, ?_⟩
+    simp only [qstep, deliverAll, step]; (repeat' split) <;> exact hdom
   | incr i k b ttl =>
     cases hp : pxOf ttl with
     | none =>
